@@ -8,7 +8,7 @@ from __future__ import annotations
 
 import itertools
 
-from vlib import harness, netcase
+from vlib import harness, netcase, refwire as rw
 from vlib.harness import Acc
 from vlib.vloop import VLoop, World, ScriptedPeer, RtuResponder
 
@@ -280,13 +280,34 @@ def group_requests(tx, tcp=False):
     return groups
 
 
+class _TaggedDiscoveryResponder:
+    """Answers only the AA55 discovery probe (with an identification block whose serial number carries a model tag);
+    everything else gets no answer."""
+    framing = "aa55"
+
+    def __init__(self, tag):
+        self.tag = tag
+        self.bad_requests = []
+        self.answered = False
+
+    def respond(self, data):
+        if data[:2] == b"\xaa\x55" and data[4:6] == b"\x01\x02" and not self.answered:
+            self.answered = True        # only the very first probe; an ES object's own identification read (same bytes) is not
+            from vlib import siminv
+            return rw.aa55_response(b"\x01\x82", siminv.es_device_info(serial=("95048" + self.tag + "000W0000")[:16].encode()))
+        return None
+
+
 def check_entry(acc: Acc, case):
     import goodwe
     acc.case()
-    acc.nontrivial("entry", case["entry"], case.get("family"), case["T"], case["R"], case.get("port"), case.get("k"))
+    acc.nontrivial("entry", case["entry"], case.get("family"), case["T"], case["R"], case.get("port"), case.get("k"), case.get("tag"))
     T, R = case["T"], case["R"]
     entry = case["entry"]
     peer = ScriptedPeer(RtuResponder(), [], default=("drop",))
+    if case.get("tag"):
+        # the discovery probe is answered (serial number with a model tag), every later request of the detected class is not
+        peer = ScriptedPeer(_TaggedDiscoveryResponder(case["tag"]), [], default=("answer", 0.0))
     world = World(peer)
     loop = VLoop(world, max_time=1e5)
     if entry == "connect":
@@ -309,7 +330,7 @@ def check_entry(acc: Acc, case):
         return [(key0 + "|hang", "never completes: %s" % out.hang, case)]
     if out.exc is None:
         fails.append((key0 + "|succeeded-against-silence", "returned %r against a silent peer" % (out.result,), case))
-    groups = group_requests(world.tx, tcp=case.get("port") == 502)
+    groups = group_requests(world.tx[1:] if case.get("tag") else world.tx, tcp=case.get("port") == 502)   # [1:]: the answered probe
     if entry == "connect-nothing":
         from goodwe.exceptions import InverterError
         if groups or not isinstance(out.exc, InverterError) or out.t_end != out.t_start:
@@ -321,6 +342,15 @@ def check_entry(acc: Acc, case):
     for data, times in groups:
         rel = [t - times[0] for t in times]
         want = [i * T for i in range(R + 1)]
+        if case.get("tag") and len(rel) > R + 1 and len(rel) % (R + 1) == 0:
+            # the class detected from the tag and the family-probing fallback send the SAME probe back to back: k requests of
+            # R+1 transmissions each, the next one starting when the previous one fails
+            want = [i * T for i in range(len(rel))]
+            if any(abs(a - b) > EPS for a, b in zip(rel, want)):
+                fails.append((key0 + "|timeout-not-applied", "probe %s was transmitted at +%s, caller asked for timeout=%r, retries=%d" % (
+                    data.hex()[:24], rel, T, R), case))
+                break
+            continue
         if len(rel) != R + 1:
             fails.append((key0 + "|retries-not-applied",
                           "probe %s was transmitted %d times (at +%s), caller asked for retries=%d" % (
@@ -355,6 +385,10 @@ def entry_cases(quick):
                 cases.append({"entry": "connect", "family": fam, "port": port, "T": T, "R": R})
         for port in (8899, 502):
             cases.append({"entry": "discover", "port": port, "T": T, "R": R})
+            if port == 8899:
+                for tag in ("ETU", "EHU", "ESU", "BPS", "DTU", "MSU", "DNS", "XYZ"):
+                    cases.append({"entry": "discover", "port": port, "T": T, "R": R, "tag": tag})
+                    cases.append({"entry": "connect-discover", "family": None, "port": port, "T": T, "R": R, "tag": tag})
             for fam in (None, "", "XX", "et"):
                 cases.append({"entry": "connect-discover", "family": fam, "port": port, "T": T, "R": R})
                 cases.append({"entry": "connect-nothing", "family": fam, "port": port, "T": T, "R": R})
